@@ -80,6 +80,13 @@ def specs(rng, tier, wid, nw, env):
             for j in range(12 if q else 120):
                 k += 1
                 if k % nw == wid: yield ('ripple', sub, pd, rng.getrandbits(48))
+    # mpf_get_str at the edge of what the precision carries: n = the last digit count my rule still judges, operand of prec+1 limbs whose top limb
+    # holds only a few bits, exponents far from 0 (long power chains): this is where the working precision of the conversion has fewest guard bits (F18)
+    for base in list(range(2, 63)) + [-2, -10, -36]:
+        for pa in (P[:4] if q else P[:6]):
+            for j in range(6 if q else 60):
+                k += 1
+                if k % nw == wid: yield ('getstr', pa, base, 'guard', rng.getrandbits(48))
     N = 20000 if q else 300000
     for i in range(N):
         c = rng.random()
@@ -295,13 +302,19 @@ def build(spec, env):
             if sigbits(ex) <= p and res != ex: return [('%s:not-exact-although-representable' % opn, d)]
         return Case(cmds, check, 1, (opn, pd, ex < 0, min(sigbits(ex), 500) // 16))
     if kind == 'getstr':
-        _, pa, base, _s = spec
+        _, pa, base = spec[:3]; guard = len(spec) == 5
         m = rand_mant(r, r.choice([pa, 20, 64, pa + 64])) * r.choice([1, -1]); e = r.choice([0, -m.bit_length(), -m.bit_length() // 2, r.randint(-400, 400)])
+        if guard:
+            # prec+1 limbs, the top limb holding 1..6 bits; binary exponent a multiple of 64 so that the limbs are stored as constructed
+            pl = plimbs(pa); m = (r.getrandbits(64 * pl + r.randint(1, 6)) | (1 << (64 * pl))) * r.choice([1, -1])
+            if r.random() < 0.3: m |= (1 << (64 * pl)) - 1
+            e = 64 * r.choice([-pl - 2, -pl - 1, r.randint(-400, 400), r.randint(-4000, 4000), r.randint(-30, 30)])
         ca, a = fcmd('F1', pa, m, e)
         # digits the precision carries: with p = 64*(prec limbs - 1) bits a correct conversion is only accurate to about 2^(2-p) relative, which is
         # one unit of the n-th digit only while base^n <= 2^(p-2) (a value with leading digit base-1 is the worst case)
         carried = max(1, int((64 * (plimbs(pa) - 1) - 2) * math.log(2) / math.log(abs(base))))
         nd = r.choice([0, 1, 2, 5, max(1, carried // 2), max(1, carried - 1), max(1, carried)])
+        if guard: nd = max(1, carried - r.choice([0, 0, 0, 1]))
         cmds = [ca, 'c mpf_get_str 0 & #%d #%d F1' % (base, nd)]
         def check(rep, a=a, nd=nd, base=base):
             v, _ = split_reply(rep[1]); s = unhexs(v[0]).decode('latin-1'); ex = int(v[1]); d = 'base=%d n=%d a=%s got=%r exp=%d' % (base, nd, float(a) if 1e-300 < abs(a) < 1e300 else 'big', s[:60], ex)
@@ -314,5 +327,5 @@ def build(spec, env):
             n_eff = nd if nd else len(ds)
             if abs(val - abs(a)) > Fraction(ab) ** (ex - n_eff): return [('mpf_get_str:off-by-more-than-one-unit-of-last-digit', d)]
             if not (Fraction(ab) ** (ex - 1) <= val): return [('mpf_get_str:not-normalised', d)]
-        return Case(cmds, check, 1, ('getstr', pa, base, nd if nd < 6 else 6 + nd // 20))
+        return Case(cmds, check, 1, ('getstr', pa, base, nd if nd < 6 else 6 + nd // 20, guard))
     raise ValueError(kind)
